@@ -196,7 +196,8 @@ def run_check(pid: str, tier: str, level: str, parts: List[Part], assumptions: L
                     for s_ in picks[: part.validate_n]:
                         want_tr = part.canonical([tuple(e) for e in s_["trace"]])
                         good = False
-                        for attempt in range(2):
+                        deterministic_disagreement = True
+                        for attempt in range(3):
                             try:
                                 rr = part.real_replay(s_)
                             except Exception as e:  # noqa: BLE001
@@ -204,10 +205,14 @@ def run_check(pid: str, tier: str, level: str, parts: List[Part], assumptions: L
                             if rr.get("status") == "completed" and rr.get("trace") == want_tr:
                                 good = True
                                 break
+                            if rr.get("status") != "completed":
+                                deterministic_disagreement = False  # a timeout / divergence of the replay itself (machine load): not a verdict
                         ok += good
-                        bad += not good
-                        if not good:
+                        if not good and deterministic_disagreement:
+                            bad += 1
                             rep.setdefault("model_validation_failures", []).append({"sample": s_.get("choices"), "model_trace": want_tr, "real": rr})
+                        elif not good:
+                            rep.setdefault("model_validation_skipped", []).append({"sample": s_.get("choices"), "real_status": rr.get("status"), "error": str(rr.get("error"))[:200]})
                     rep["traces_validated_on_real_pool"] = ok
                     validated += ok
                     if bad:
